@@ -23,7 +23,7 @@ RULE = ("Tables (local and fake S3; 2-4 retained snapshots chosen by the seed) w
         "marker, uncommitted metadata files of the current and of the NEXT version number (crash leftovers; the latter references only the current snapshot), and deletable 2 h old orphans, all reachable files aged 2 h so that any wrong decision deletes something. (a) a fault at EVERY step of a "
         "clean collection run (local: storage API calls and the os-level calls under them, once as a one-shot error and once persisting for that call on that file; S3 (2 keys per listing page): every request, once as a single transient error that the retry layer absorbs and once failing persistently through all retries), "
         "(b) each of the three listings returning an escaping path, (c) every reachable metadata-plane file x {delete, truncations, random bytes} that an "
-        "independent parser rejects, plus the current metadata file as valid JSON without its 'snapshots' section. Oracle: a run that raised deleted nothing; a run that returned deleted no file that is reachable in the UNDAMAGED "
+        "independent parser rejects, plus the current metadata file as valid JSON without its 'snapshots' section, (d) each existence probe of the collection wrongly answering False (an I/O error swallowed into 'does not exist'). Oracle: a run that raised deleted nothing; a run that returned deleted no file that is reachable in the UNDAMAGED "
         "table or protected by a live marker. Non-trivial: the fault hit a call whose result feeds the reachable/protected sets (anything before the first "
         "delete). distinct = (world, variant, fault class, normalised step).")
 ASSUMPTIONS = ["ages are set with utime / LastModified rewriting; 'live' markers are younger than 24 h",
@@ -123,13 +123,29 @@ def listing(w):
     return set(fs.list("data")) | set(fs.list("metadata"))
 
 
-def run_gc(w, stepper=None, escape_listing=None):
+def run_gc(w, stepper=None, escape_listing=None, lying_exists=None):
     """returns (raised exception or None)"""
     with w.env(stepper):
         try:
             t = w.open()
         except Exception as e:  # noqa - a table that cannot even be opened cannot be collected: nothing deleted
             return e
+        if lying_exists is not None:
+            # the n-th existence probe of the collection answers False although the object exists (os.path.exists swallows every
+            # OSError - EIO, ESTALE - into False; an S3-compatible gateway may answer a spurious 404)
+            stg = t.storage
+            orig_exists = stg.exists
+            seen = lying_exists["seen"]
+
+            def ex(path):
+                r = orig_exists(path)
+                seen[0] += 1
+                if seen[0] == lying_exists["n"] and r:
+                    lying_exists["lied_about"] = path
+                    return False
+                return r
+
+            stg.exists = ex
         if escape_listing is not None:
             stg = t.storage
             orig = stg.list_files
@@ -231,6 +247,32 @@ def run_variant(task):
                         import shutil
 
                         shutil.rmtree(wi.root, ignore_errors=True)
+        # ---- (d) an existence probe that wrongly answers False
+        if task["part"] in ("d", "all") and task["shard"] == 0:
+            probe = {"n": 0, "seen": [0]}
+            wi = base.clone(f"{d}/x0") if wk == "local" else base.clone()
+            run_gc(wi, None, lying_exists=probe)
+            total = probe["seen"][0]
+            for n in range(1, total + 1):
+                wi = base.clone(f"{d}/x{n}") if wk == "local" else base.clone()
+                lie = {"n": n, "seen": [0]}
+                r = run_gc(wi, None, lying_exists=lie)
+                if "lied_about" not in lie:
+                    continue
+                tgt = str(lie["lied_about"])
+                if tgt.strip("/").endswith("metadata.version-hint.text"):
+                    # a pointer that looks absent is pointer LOSS: what recovery may then surface is C10's subject (and its recorded
+                    # finding recovery-surfaces-orphan/crash), not a reachability input that 'cannot be trusted'
+                    res.labels["d:pointer-probe(excluded, C10)"] += 1
+                    continue
+                cls = "marker" if "inflight" in tgt else ("manifest-plane" if "manifest" in tgt else ("metadata" if tgt.startswith("metadata") else "data"))
+                case = {"kind": "gc", "world": wk, "variant": variant, "class": f"exists-false@{cls}", "k": n}
+                res.case(key=f"{wk}|{variant}|d|{cls}|{n}", nontrivial=True, labels=["d:exists-answers-false", f"world:{wk}", "raised" if r else "returned"], sample=case if n % 7 == 0 else None)
+                judge(res, wi, before, R, P, r, case, f"existence probe #{n} ({c04.norm_label('storage:exists', tgt)}) answered False although the object exists")
+                if wk == "local":
+                    import shutil
+
+                    shutil.rmtree(wi.root, ignore_errors=True)
         # ---- (b) listings returning an escaping path
         if task["part"] in ("b", "all") and task["shard"] == 0:
             for pfx in ("metadata/inflight", "data", "metadata/manifests"):
